@@ -521,35 +521,7 @@ func c08(c *core.Ctx, r *core.Report) {
 	})
 
 	rule(r, "C08.R5", "the tolerance options of RunOptions come from the same-named command-line flag and from the same-named config option", func() {
-		var lit *ssa.Alloc
-		var where *ssa.Function
-		for _, fn := range c.AllFuncs {
-			if core.RelPkg(fn) != "internal/run" {
-				continue
-			}
-			for _, call := range an.AllCalls(fn) {
-				if t := an.Callee(call); t != nil && t.Name() == "NewRun" {
-					if a := an.StructLiteralOf(call.Common().Args[0]); a != nil {
-						lit, where = a, fn
-					}
-				}
-			}
-		}
-		if lit == nil {
-			panic(core.AnchorError{What: "RunOptions literal handed to NewRun"})
-		}
-		fields := an.LiteralFields(lit)
-		for _, f := range []string{"MaxFailures", "MaxFailuresRate", "IgnoreDropped", "MaxDuration", "Concurrency", "MaxIterations"} {
-			v, ok := fields[f]
-			if !ok {
-				r.Violation(core.FuncName(where)+"#"+f, c.Pos(lit.Pos()), "RunOptions.%s is never set", f)
-				continue
-			}
-			d := an.D().Of(v)
-			okCfg := strings.Contains(d, ".Options."+f)
-			okFlag := strings.Contains(d, "\""+kebab(f)+"\"")
-			r.Check(okCfg && okFlag, core.FuncName(where)+"#"+f, c.Pos(lit.Pos()), f+" ← "+d, "RunOptions."+f+" is fed from "+d+": expected the config option Options."+f+" and the flag --"+kebab(f))
-		}
+		runOptionSources(c, r, []string{"MaxFailures", "MaxFailuresRate", "IgnoreDropped"})
 	})
 
 	rule(r, "C08.R6", "setup and teardown failures reach the error set: shared with C06.R1/R2 (setup-failed branch records an error; teardown failure is read from the handle's own teardownFailed flag and recorded)", func() {
@@ -647,4 +619,38 @@ func nilImplies(h, failedFn *ssa.Function) (errNil, notFailed bool) {
 		return false, false
 	}
 	return
+}
+
+// runOptionSources: the named fields of the RunOptions literal handed to NewRun come from the same-named
+// command-line flag and the same-named config-file option.
+func runOptionSources(c *core.Ctx, r *core.Report, names []string) {
+	var lit *ssa.Alloc
+	var where *ssa.Function
+	for _, fn := range c.AllFuncs {
+		if core.RelPkg(fn) != "internal/run" {
+			continue
+		}
+		for _, call := range an.AllCalls(fn) {
+			if t := an.Callee(call); t != nil && t.Name() == "NewRun" {
+				if a := an.StructLiteralOf(call.Common().Args[0]); a != nil {
+					lit, where = a, fn
+				}
+			}
+		}
+	}
+	if lit == nil {
+		panic(core.AnchorError{What: "RunOptions literal handed to NewRun"})
+	}
+	fields := an.LiteralFields(lit)
+	for _, f := range names {
+		v, ok := fields[f]
+		if !ok {
+			r.Violation(core.FuncName(where)+"#"+f, c.Pos(lit.Pos()), "RunOptions.%s is never set", f)
+			continue
+		}
+		d := an.D().Of(v)
+		okCfg := strings.Contains(d, ".Options."+f)
+		okFlag := strings.Contains(d, "\""+kebab(f)+"\"")
+		r.Check(okCfg && okFlag, core.FuncName(where)+"#"+f, c.Pos(lit.Pos()), f+" ← "+d, "RunOptions."+f+" is fed from "+d+": expected the config option Options."+f+" and the flag --"+kebab(f))
+	}
 }
